@@ -27,10 +27,13 @@ from sim.c02_solve import check_solve, expected_facts
 ID = "C03"
 TIERS = {"quick": 60000, "thorough": 600000}
 RULE = (
-    "each run = one seeded program (<=6 variables with contiguous or sparse/shuffled ids, domain product <=1024, constraint "
-    "trees over every DSL operator plus the two native graph operators), an answer-key subset, one of the five backend names, "
-    "a peer configuration (honest with model-choice policy / scripted arbitrary well-typed replies; reply line order java/"
-    "byid/shuffled; final newline kept or stripped) and 1-3 find_answer/solve calls; non-trivial = some call whose text was "
+    "each run = one seeded program (<=6 variables with contiguous or sparse/shuffled ids up to four digits; 10% padded to "
+    "11-14 variables; 3% 'bulk' with 40-130 variables and hundreds of constraint lines; 1.2% 'scale' with 300-2600 "
+    "variables, all answer keys; domain product <=1024; constraint trees over every DSL operator plus the two native graph "
+    "operators on up to 13 vertices with duplicate edges), an answer-key subset, one of the five backend names, a peer "
+    "configuration (honest with model-choice policy / scripted arbitrary well-typed in-domain replies; reply line order "
+    "java/byid/shuffled; final newline kept or stripped), optionally a second 'shadow' Solver used alternately on the same "
+    "backend and a configured solver_timeout, and 1-3 find_answer/solve calls; non-trivial = some call whose text was "
     "compared by denotation on a domain where the posted constraints are neither valid nor unsatisfiable, or a scripted "
     "satisfiable reply reflected into >=1 variable; distinct = distinct event-log SHA-256"
 )
